@@ -119,8 +119,15 @@ def observe(root, rng: random.Random, *, mutants: bool = True) -> dict:
         for _ in range(3):
             m = build(rec["tree"], type(root))
             target = ([m] + list(m))[rng.randrange(len(nodes))]
-            f = rng.randrange(6)
-            if f == 0:
+            f = rng.randrange(8)
+            if f == 6:     # structure: a node loses its last child (deep nodes preferred)
+                cands = [x for x in [m] + list(m) if x.children]
+                if cands:
+                    cands[-1 if rng.random() < 0.6 else rng.randrange(len(cands))].children.pop()
+            elif f == 7:   # structure: a node gains a child
+                type(root)("extra", b"x", "", 0, 0, parent=target)
+                target.children.append(type(root)("extra", b"x", "", 0, 0, parent=target))
+            elif f == 0:
                 target.start += 1
             elif f == 1:
                 target.end += 1
@@ -289,6 +296,10 @@ def run(prop: str, tier: str) -> int:
         res.sample({"scan_input": inputs[-1].decode("latin-1")})
         if prop == "C20":
             cli_in = inputs[:: max(1, len(inputs) // (36 if tier == "quick" else 600))]
+            # bytes a command line might be tempted to "clean up": byte-order marks, leading / trailing white space, CR LF, NUL
+            base = b"cmd /c echo http://evil-site.net/a.exe 6576696c2e636f6d2f6d616c77617265"
+            cli_in += [b"\xef\xbb\xbf" + base, b"\xff\xfe" + base, b"\xfe\xff" + base, b"\n\n  " + base + b"  \r\n\r\n", b"\x00" + base + b"\x00",
+                       base + b"\n", b"\xef\xbb\xbf", b"\r\n", base.replace(b" ", b"\xa0"), b"\x1a" + base]
             for rec in cli_sessions(cli_in, work, rng):
                 f.write(json.dumps(rec) + "\n")
                 n += 1
